@@ -18,7 +18,9 @@ func workload(seed int64, udp bool) scenario {
 	suites := [][]int{{1, 1, 1}, {3, 4, 1}, {2, 2, 1}, {1, 4, 1}, {3, 1, 1}}
 	su := suites[rng.Intn(len(suites))]
 	pw := fmt.Sprintf("%x", []byte(fmt.Sprintf("pw-%d", seed)))
-	sc := scenario{TimeoutMs: 50}
+	// nothing is scripted lost or silent, so the per-attempt timeout never decides an outcome: keep it far from any
+	// scheduling delay under the race detector
+	sc := scenario{TimeoutMs: 5000}
 	if udp {
 		// over the library's real UDP transport; nothing is scripted lost, so a generous per-attempt timeout keeps
 		// scheduling delays under the race detector from turning into retransmissions
